@@ -86,7 +86,30 @@ def input_file(path, inp, Q, W):
             f.write("FILE %d %s\n" % (fl, " ".join("%s %d" % a for a in atoms)))
 
 
+HASHTEST = """#include <stdio.h>
+#include <stdint.h>
+#include <stddef.h>
+uint32_t xxh32(const void *, size_t);
+int main(void) { printf("%u %u\\n", xxh32("abc", 3), xxh32("abd", 3)); return 0; }
+"""
+
+
+def check_hash_variant(out, variant):
+    """anti-vacuity: a hash<k> build must really truncate the checksum"""
+    m = re.search(r"hash(\d+)", variant)
+    if not m:
+        return
+    d = build.build(variant)
+    src = out + "/hashtest.c"
+    open(src, "w").write(HASHTEST)
+    subprocess.check_call(["gcc", src, d + "/liball.a", "-o", out + "/hashtest"])
+    a, b = (int(x) for x in subprocess.check_output([out + "/hashtest"]).split())
+    if a >= (1 << int(m.group(1))) or b >= (1 << int(m.group(1))):
+        raise RuntimeError("build variant %s does not truncate xxh32 (%d, %d)" % (variant, a, b))
+
+
 def build_harness(out, variant):
+    check_hash_variant(out, variant)
     binp = out + "/replay_blockproc_" + variant
     if not build.compile_harness(VERIF + "/harness/replay_blockproc.c", binp, variant=variant):
         raise RuntimeError("cannot build block processor harness")
